@@ -131,6 +131,11 @@ void *memmove(void *dst, const void *src, size_t n)
     __CPROVER_assert(__CPROVER_same_object(src, dst), "memmove model: source and destination in one slot array");
     __CPROVER_assert(n % sizeof(va_T) == 0 && __CPROVER_POINTER_OFFSET(src) % sizeof(va_T) == 0 &&
                      __CPROVER_POINTER_OFFSET(dst) % sizeof(va_T) == 0, "memmove: whole aligned slots");
+    /* a call that failed one of the checks above has undefined behaviour: the path ends here
+     * (the failed assertion is the finding; this only avoids a cascade of secondary failures) */
+    __CPROVER_assume(__CPROVER_r_ok(src, n) && __CPROVER_w_ok(dst, n) && __CPROVER_same_object(src, dst) &&
+                     n % sizeof(va_T) == 0 && __CPROVER_POINTER_OFFSET(src) % sizeof(va_T) == 0 &&
+                     __CPROVER_POINTER_OFFSET(dst) % sizeof(va_T) == 0);
     size_t so = __CPROVER_POINTER_OFFSET(src) / sizeof(va_T), d_o = __CPROVER_POINTER_OFFSET(dst) / sizeof(va_T);
     size_t ne = n / sizeof(va_T), dn = __CPROVER_OBJECT_SIZE(dst) / sizeof(va_T);
     va_T *db = (va_T *) dst - d_o;                       /* slot 0 of the array */
@@ -151,6 +156,7 @@ void *memset(void *dst, int c, size_t n)
     if (n == 0) return dst;
     __CPROVER_assert(__CPROVER_w_ok(dst, n), "memset: destination writable");
     __CPROVER_assert(n % sizeof(va_T) == 0 && __CPROVER_POINTER_OFFSET(dst) % sizeof(va_T) == 0, "memset: whole aligned slots");
+    __CPROVER_assume(__CPROVER_w_ok(dst, n) && n % sizeof(va_T) == 0 && __CPROVER_POINTER_OFFSET(dst) % sizeof(va_T) == 0);
     size_t d_o = __CPROVER_POINTER_OFFSET(dst) / sizeof(va_T);
     size_t ne = n / sizeof(va_T), dn = __CPROVER_OBJECT_SIZE(dst) / sizeof(va_T);
     va_T *db = (va_T *) dst - d_o;
@@ -163,17 +169,6 @@ void *memset(void *dst, int c, size_t n)
     if (c_in) db[vg_k] = c_val;
     return dst;
 }
-#endif
-
-/* ---- time(): contract form -------------------------------------------------
- * goto-instrument 6.11 aborts (goto_inline_class.cpp:104) when a function that carries loop
- * contracts is a CALLEE of the enforced function and contains REQUIRE_RVAL, whose __DEBUG() has
- * the nested call fprintf(..., (unsigned long) time(NULL), ...) and time() has a body.  Units in
- * that situation define VERIF_REAL_STDIO (env.h then leaves fprintf/printf/fflush/time without
- * bodies = arbitrary return values, no side effects) and use `replace: time` with this contract
- * (same meaning as env.h's stub.  ASSUMES: the clock is not before the epoch). */
-#ifdef VERIF_REAL_STDIO
-time_t time(time_t *t) __CPROVER_assigns(t != NULL: *t) __CPROVER_ensures(__CPROVER_return_value >= 0);
 #endif
 
 #ifndef VA_NO_REBIND
